@@ -61,6 +61,9 @@ CASES = [
  ("C14", "data/builder.py", "            self.schema = name.schema.model_copy(deep=True)", "            self.schema = name.schema", "break"),
  ("C16", "data/items.py", "        if self._numbers is None:\n            if self._vocab is None:", "        if not self._numbers:\n            if self._vocab is None:", "break"),
  ("C16", "data/items.py", "        if vocabulary is not None and vocabulary is not self._vocab:", "        if vocabulary is not None:", "break"),
+ ("C15", "data/items.py", "        if self._numbers is not None:\n            state[\"numbers\"] = self._numbers.numpy()\n        elif self._vocab is not None:", "        if self._numbers:\n            state[\"numbers\"] = self._numbers.numpy()\n        elif self._vocab is not None:", "break"),
+ ("C15", "data/items.py", "        if self._ids is not None:\n            state[\"ids\"] = self._ids\n        elif self._vocab is not None:", "        if self._vocab is not None and self._ids is None:\n            state[\"ids\"] = self.ids()\n        elif False:", "break"),
+ ("C15", "data/items.py", "        elif self._vocab is not None:\n            state[\"numbers\"] = self.numbers(missing=\"negative\")\n", "", "break"),
  ("C16", "data/items.py", "            if item_ids is None and source is not None and source._ids is not None:\n                del self._ids", "            if source is not None and source._ids is not None:\n                del self._ids", "break"),
  ("C16", "data/items.py", "        if isinstance(source, ItemList) and self._len != source._len:", "        if isinstance(source, ItemList) and self._len < source._len:", "break"),
  ("C16", "data/items.py", "                and source._vocab is not vocabulary\n                and source._numbers is not None\n", "                and source._vocab is not vocabulary\n", "break"),
